@@ -4,6 +4,7 @@ import YaegiVerif.Expected.C15
 import YaegiVerif.Generated.C15
 import YaegiVerif.Proofs.C15Order
 import YaegiVerif.Proofs.C15Import
+import YaegiVerif.Proofs.C15Decls
 /-
   C15 — package-level variables initialise in dependency order; then init functions in source
   order; then main. Property theorems.
@@ -289,6 +290,177 @@ theorem classify_in_domain_iff (p : Pkg) : classify p = "in-domain" ↔ dom p = 
     simp only
     repeat' split
     all_goals decide
+
+/-! ### which declarations run as init functions (for every list of declarations)
+
+  A package is given as its files, each a list of declarations: variable specifications, function
+  declarations (with or without receiver, any name, any number of type parameters / parameters /
+  results, any local variables), type declarations (any field names). `cfg` adds a function
+  declaration to `initNodes` under the condition read from the source, `importSrc` joins the lists of
+  the files, `Execute` / `importSrc` run the list from first to last. -/
+
+/-- tie: the registration condition of `cfg`, the way the node is added, the way the per-file lists
+    are joined and the cases of the `switch` of `gta` are the ones the proofs use -/
+theorem init_tie : Generated.C15.initFacts = Expected.C15.initFacts := by decide
+
+/-- tie: the statements those facts are read from, the loops that run the list and `isMethod` are
+    textually the ones the model was written from -/
+theorem init_source_tie : Generated.C15.initHashes = Expected.C15.initHashes := by decide
+
+/-- **the functions run as init functions are exactly the function declarations named `init`
+    without receiver, in source order (file by file), each declaration once** — for every list of
+    files and declarations, for the facts regenerated from the source. The right-hand side is the
+    list of the function declarations of the package, in source order, filtered. -/
+theorem init_registration_correct (files : List (List Decl)) :
+    pkgInits Generated.C15.initFacts files = (declFuncs files.flatten).filter isInitFunc := by
+  rw [init_tie, pkgInits_expected]; rfl
+
+/-- membership, spelled out: a function declaration runs as an init function iff it is declared in
+    the package, is called `init` and has no receiver -/
+theorem init_funcs_exactly (files : List (List Decl)) (f : FuncDecl) :
+    f ∈ pkgInits Generated.C15.initFacts files ↔ (Decl.func f ∈ files.flatten ∧ f.name = "init" ∧ f.recv = .none) := by
+  rw [init_registration_correct, List.mem_filter, mem_declFuncs]
+  simp [isInitFunc]
+
+/-- order and multiplicity, spelled out: the init nodes are a sub-sequence of the function
+    declarations in source order (nothing is reordered, nothing is invented), and every init
+    function is there as many times as it is declared (nothing is dropped, nothing runs twice) -/
+theorem init_funcs_once_in_order (files : List (List Decl)) :
+    (pkgInits Generated.C15.initFacts files).Sublist (declFuncs files.flatten) ∧
+    ∀ f, isInitFunc f = true →
+      (pkgInits Generated.C15.initFacts files).count f = (declFuncs files.flatten).count f := by
+  rw [init_registration_correct]
+  refine ⟨List.filter_sublist, ?_⟩
+  intro f hf
+  rw [List.count_filter hf]
+
+/-- **what looks like an init function but is not never runs by itself**: a method named `init`
+    (value or pointer receiver), a function with another name (`Init`, `init_`, `initX`, …) —
+    whatever else the package declares (fields or local variables named `init` are not function
+    declarations at all) -/
+theorem lookalike_never_registered (files : List (List Decl)) (f : FuncDecl)
+    (h : f.recv ≠ .none ∨ f.name ≠ "init") : f ∉ pkgInits Generated.C15.initFacts files := by
+  rw [init_funcs_exactly]
+  rintro ⟨_, hn, hr⟩
+  cases h with
+  | inl h => exact h hr
+  | inr h => exact h hn
+
+/-- `gta` declares a function symbol for exactly the functions that are not init functions: `init`
+    "is not declared" (several init functions, in one file or in several, never clash and cannot be
+    referred to), methods go to their type, `Init` / `init_` / `initX` are ordinary functions -/
+theorem declared_funcs_correct (ds : List Decl) :
+    declaredFuncs Generated.C15.initFacts ds = declaredFuncsGo ds := by
+  rw [init_tie, declaredFuncs_expected]
+
+theorem init_not_declared (ds : List Decl) : "init" ∉ declaredFuncs Generated.C15.initFacts ds := by
+  rw [declared_funcs_correct]
+  unfold declaredFuncsGo
+  simp only [List.mem_map, List.mem_filter, Bool.and_eq_true, bne_iff_ne, ne_eq, not_exists, not_and]
+  intro f ⟨_, _, hn⟩ he
+  exact hn he
+
+/-- the package the ordering and execution code sees is the one the specification describes -/
+theorem toPkg_eq_spec (s : SrcPkg) : s.toPkg Generated.C15.initFacts = toPkgGo s := by
+  unfold SrcPkg.toPkg toPkgGo
+  rw [init_tie, pkgInits_expected]
+
+/-- **the executed sequence, for every package given as source** (file or directory, facts
+    regenerated from the source, whatever the dependency graph): when the run succeeds it logged
+    exactly — the initialisers of the variable specifications, each once, every specification after
+    the ones it names (`o`); then the receiver-less functions named `init` in source order, each
+    once; then `main` and what `main` itself calls. Nothing else runs before `main`. -/
+theorem src_exec_sequence (s : SrcPkg) (evs : List String)
+    (h : runSrcY Generated.C15.execFacts Generated.C15.initFacts s = ⟨evs, false⟩ ∨
+         runSrcImportY Generated.C15.execFacts Generated.C15.initFacts s = ⟨evs, false⟩) :
+    ∃ o, o.Perm (List.range (declVars s.decls).length) ∧
+      Respects (collectDepsY (toPkgGo s)) o ∧
+      evs = labelsOf (declVars s.decls) o
+            ++ ((declFuncs s.decls).filter isInitFunc).map (·.label)
+            ++ s.main.toList ++ s.after := by
+  unfold runSrcY runSrcImportY at h
+  rw [toPkg_eq_spec] at h
+  have key : ∀ t : Trace, t.andThen s.after = ⟨evs, false⟩ →
+      ∃ e, t = ⟨e, false⟩ ∧ evs = e ++ s.after := by
+    intro t ht
+    unfold Trace.andThen at ht
+    obtain ⟨e, er⟩ := t
+    cases er with
+    | true => simp at ht
+    | false =>
+      simp only [Bool.false_eq_true, if_false, Trace.mk.injEq, and_true] at ht
+      exact ⟨e, rfl, ht.symm⟩
+  have h' : ∃ e, (runY Generated.C15.execFacts (toPkgGo s) = ⟨e, false⟩ ∨
+      runImportY Generated.C15.execFacts (toPkgGo s) = ⟨e, false⟩) ∧ evs = e ++ s.after := by
+    cases h with
+    | inl h => obtain ⟨e, h1, h2⟩ := key _ h; exact ⟨e, .inl h1, h2⟩
+    | inr h => obtain ⟨e, h1, h2⟩ := key _ h; exact ⟨e, .inr h1, h2⟩
+  obtain ⟨e, he, hevs⟩ := h'
+  obtain ⟨o, ho, hp, hev⟩ := init_then_main (toPkgGo s) e he
+  refine ⟨o, hp, orderY_respects_collected _ o ho, ?_⟩
+  rw [hevs, hev]
+  rfl
+
+/-- **C15 for a package given as source, on the proved domain** (the domain speaks about the
+    variables' dependencies only): whatever functions, methods, types and local variables called
+    `init`, `Init`, `init_`, … the package declares, in however many files, the program logs exactly
+    what the Go specification prescribes. -/
+theorem src_init_order_partial (s : SrcPkg) (h : dom (toPkgGo s) = true) :
+    runSrcY Generated.C15.execFacts Generated.C15.initFacts s = runSrcGo s ∧
+    runSrcImportY Generated.C15.execFacts Generated.C15.initFacts s = runSrcGo s := by
+  unfold runSrcY runSrcImportY runSrcGo
+  rw [toPkg_eq_spec]
+  obtain ⟨h1, h2⟩ := init_order_generated (toPkgGo s) h
+  rw [h1, h2]
+  exact ⟨rfl, rfl⟩
+
+/-- the label the harness uses for a package given as source is "in-domain" exactly on the domain
+    of `src_init_order_partial` -/
+theorem classifySrc_in_domain_iff (s : SrcPkg) : classifySrc s = "in-domain" ↔ dom (toPkgGo s) = true :=
+  classify_in_domain_iff (toPkgGo s)
+
+/-! non-vacuity and sensitivity: two files with look-alikes between two init functions
+
+    a.go: `type rv struct{ n int }`, `type rf struct{ init int }`, `func (r rv) init() { say("rv_init") }`,
+          `var a = lg("a", b)`, `func init() { say("init0") }`, `func Init() { say("Init") }`
+    b.go: `func (r *rp) init() { say("rp_init") }`, `var b = lg("b")`, `func init_() { init := 7; say("init_", init) }`,
+          `func init() { say("init1") }`, `func initX() { say("initX") }`
+    `main` logs `main` and then calls `rv{}.init()` and `Init()`. -/
+def srcLookalikes : SrcPkg :=
+  { files := [[.type "rv" ["n"], .type "rf" ["init"],
+               .func { name := "init", recv := .value, recvType := "rv", label := "rv_init" },
+               .var ⟨["a"], [⟨"a", [⟨"b", true⟩]⟩], false⟩,
+               .func { name := "init", label := "init0" },
+               .func { name := "Init", label := "Init" }],
+              [.func { name := "init", recv := .pointer, recvType := "rp", label := "rp_init" },
+               .var ⟨["b"], [⟨"b", []⟩], false⟩,
+               .func { name := "init_", label := "init_", locals := ["init"] },
+               .func { name := "init", label := "init1" },
+               .func { name := "initX", label := "initX" }]],
+    main := some "main",
+    after := ["rv_init", "Init"] }
+
+example :
+    classifySrc srcLookalikes = "in-domain" ∧
+    runSrcY Generated.C15.execFacts Generated.C15.initFacts srcLookalikes
+      = ⟨["b", "a", "init0", "init1", "main", "rv_init", "Init"], false⟩ ∧
+    runSrcGo srcLookalikes = ⟨["b", "a", "init0", "init1", "main", "rv_init", "Init"], false⟩ ∧
+    declaredFuncs Generated.C15.initFacts srcLookalikes.decls = ["Init", "init_", "initX"] := by decide
+
+/-- the model is sensitive to the extracted facts: were the receiver test replaced by a test of the
+    type parameters (or dropped), the methods named `init` would run, uncalled, among the init
+    functions; were the node prepended (one file) or the per-file lists joined in front (two files),
+    the init functions would run in reverse order; without the name test every function would run -/
+example :
+    runSrcY Expected.C15.execFacts { Expected.C15.initFacts with register := [.nameIs "init", .tparamsEmpty] } srcLookalikes
+      = ⟨["b", "a", "rv_init", "init0", "rp_init", "init1", "main", "rv_init", "Init"], false⟩ ∧
+    runSrcY Expected.C15.execFacts { Expected.C15.initFacts with add := .prepend }
+        { srcLookalikes with files := [srcLookalikes.decls] }
+      = ⟨["b", "a", "init1", "init0", "main", "rv_init", "Init"], false⟩ ∧
+    runSrcY Expected.C15.execFacts { Expected.C15.initFacts with join := .prepend } srcLookalikes
+      = ⟨["b", "a", "init1", "init0", "main", "rv_init", "Init"], false⟩ ∧
+    runSrcY Expected.C15.execFacts { Expected.C15.initFacts with register := [.recvEmpty] } srcLookalikes
+      = ⟨["b", "a", "init0", "Init", "init_", "init1", "initX", "main", "rv_init", "Init"], false⟩ := by decide
 
 /-! ### several packages: imported first, once (for every import graph, cyclic ones included) -/
 
